@@ -29,6 +29,7 @@ THEOREMS = [
     "BeyondVerif.C09.result_keeps_frame_form_after_convert",
     "BeyondVerif.C09.fresh_reachable",
     "BeyondVerif.C09.interpolate_uses_current_coordinates",
+    "BeyondVerif.C09.setters_write_through",
     "BeyondVerif.C09W.stale_scenario_now_consistent",
 ]
 LEVEL_TEXT = ("Lean theorems over R about a model of Interp (_prev_idx slicing search, the start/stop window arithmetic translated from interp.py on every run, "
@@ -63,9 +64,10 @@ OPEN = [
 RULE = ("correspondence: random tables (length 1..40, order none/1..12, uniform / jittered / MJD abscissae, 1-D and 2-D ordinates, non-increasing and length-mismatched variants), "
         "abscissae at nodes, inside every kind of interval (first, last, interior, one ulp from a node), one ulp outside, far outside, NaN: Interp._prev_idx exact; "
         "window recovered from the real code by interpolating one-hot ordinates, exact; whole calls (error kind exact, linear bit-exact, Lagrange rtol 1e-10); "
-        "Ephem objects (shuffled construction, default method/order, heterogeneous labels, interpolate / set form or frame / interpolate sequences) vs the Lean model; "
+        "Ephem objects (shuffled construction, default method/order, heterogeneous labels, interpolate / set form or frame / set order or method / interpolate sequences) vs the Lean model; "
         "non-trivial = the call returns a value; distinct = distinct request line. "
         "oracle: node exactness, polynomial reproduction (1e-7), piecewise-linear reproduction, refusal outside / too short, labels, stale-cache scenario, "
+        "query dates in other time scales (TAI/TT/GPS/UTC exact, UT1/TDB to 2 us) with real EOP tables, order/method setters on live ephemerides and interpolators vs fresh ones, "
         "cm accuracy on Keplerian orbits, all on the real API")
 
 INTERP_PY = os.path.join(core.REPO, "beyond", "utils", "interp.py")
@@ -346,7 +348,7 @@ def correspondence(ctx):
     # 4. Ephem objects: construction order, default method / order, frame + form of the result, conversion after a first interpolation
     for _ in range(ctx.n(250, 4000)):
         eph_case(out, rng, add)
-    replies = core.Driver().run(reqs)
+    replies = core.Driver(ID).run(reqs)
     for req, (kind, real, inp, kw), rep in zip(reqs, meta, replies):
         compare(out, kind, real, rep, inp, kw)
         out.sample({"request": req[:100] + "…", "impl": str(real)[:160], "model": rep[:160]}, limit=3)
@@ -413,8 +415,8 @@ def eph_case(out, rng, add):
     times, step, uniform = gen_times(rng, n)
     hetero = rng.random() < 0.15
     kep, period, sma, ecc = kepler_ephem(rng)
-    scenario = rng.choice(["plain", "plain", "convert-form", "convert-frame"]) if not hetero else "plain"
-    if scenario == "plain":
+    scenario = rng.choice(["plain", "setters", "setters", "convert-form", "convert-frame"]) if not hetero else "plain"
+    if scenario in ("plain", "setters"):
         coords = [[rng.uniform(-1, 1) * (7e6 if c < 3 else 7e3) for c in range(6)] for _ in range(n)]
         forms = [rng.choice(["cartesian", "keplerian"]) for _ in range(n)] if hetero else [rng.choice(["cartesian", "keplerian", "spherical"])] * n
         frames = [rng.choice(["EME2000", "ITRF"]) for _ in range(n)] if hetero else [rng.choice(["EME2000", "MOD", "ITRF"])] * n
@@ -456,8 +458,22 @@ def eph_case(out, rng, add):
         else:
             t, pos = rng.choice([(q(times[0] - 1.0), "outside"), (q(times[-1] + 0.5), "outside"), (times[0], "node")])
         qs.append((t, pos))
-    kinds = [do_interp(qs[0][0])]
-    if scenario != "plain":
+    kinds = []
+    any_lagrange = method in (None, "lagrange")
+    if scenario != "setters" or rng.random() < 0.75:      # setters are also exercised before the first interpolation
+        kinds.append(do_interp(qs[0][0]))
+    if scenario == "setters":
+        for _ in range(rng.randint(1, 2)):
+            if rng.random() < 0.7:
+                k2 = rng.choice([2, 3, 4, 7, 8, 9, 12, rng.randint(1, 12)])
+                eph.order = k2
+                toks.extend(["O", str(k2)])
+            else:
+                m2 = rng.choice(["lagrange", "linear"])
+                eph.method = m2
+                toks.extend(["M", "g" if m2 == "lagrange" else "l"])
+                any_lagrange = any_lagrange or m2 == "lagrange"
+    elif scenario != "plain":
         if scenario == "convert-form":
             eph.form = rng.choice(["keplerian", "spherical"])
         else:
@@ -469,8 +485,8 @@ def eph_case(out, rng, add):
         kinds.append(do_interp(t))
     scale = [float(np.max(np.abs(ysnap[:, c]))) * 1e3 for c in range(6)]   # |l_j| sum bounded by ~1e3 up to order 12 inside the table
     add(" ".join(toks), "eph", real, {"times": times, "order": order, "method": method, "scenario": scenario, "queries": qs}, scale=scale,
-        lagrange=method in (None, "lagrange"))
-    out.count(key=" ".join(toks[:40]) + str(qs), nontrivial="ok" in kinds, kind="ephem-" + scenario, method=method, order=order, hetero=hetero,
+        lagrange=any_lagrange)
+    out.count(key=" ".join(toks[:40]) + str(qs) + " ".join(t for t in toks if t in ("O", "M")), nontrivial="ok" in kinds, kind="ephem-" + scenario, method=method, order=order, hetero=hetero,
               results="+".join(kinds))
 
 # ---------------------------------------------------------------- oracle on the real API
@@ -496,6 +512,8 @@ def oracle(ctx, widened):
     rng = ctx.rng
     big = widened or ctx.thorough
     d0 = base_date()
+    from harness import env
+    env.use_real_eop()     # so that UTC, TAI, TT, GPS, UT1 really differ (tables cover 1973-2017)
 
     # ---- 1. raw Interp: node exactness, polynomial / piecewise-linear reproduction, refusal outside, too short
     for _ in range(3000 if big else 300):
@@ -661,6 +679,14 @@ def oracle(ctx, widened):
     for _ in range(60 if big else 8):
         stale_case(out, rng)
 
+    # ---- 3b. the query date may be expressed in any time scale: same instant, same state
+    for _ in range(60 if big else 8):
+        scale_case(out, rng)
+
+    # ---- 3c. order / method set on a live ephemeris (or interpolator) are honoured in every interval, visited before or not
+    for _ in range(300 if big else 40):
+        setter_case(out, rng)
+
     # ---- 4. a smooth orbit sampled well below its period: centimetres, at the ends as in the middle
     for _ in range(150 if big else 20):
         orbit_case(out, rng)
@@ -707,6 +733,134 @@ def orbit_case(out, rng):
         if not (err <= 0.05):
             out.fail(f"orbit-accuracy/{pos}/order-{par(order)}", f"interpolated position is {err:.3f} m from the true one (step = period/{frac}, order {order})",
                      {"sma": sma, "ecc": ecc, "kep": list(map(float, kep)), "times": times, "t": t, "order": order}, observed=err, expected="<= 0.05 m")
+
+
+def scale_case(out, rng):
+    """a table in one time scale queried with the same instants expressed in the other scales"""
+    import numpy as np
+    from beyond.dates import Date, timedelta
+    from beyond.orbits import Ephem
+    kep, period, sma, ecc = kepler_ephem(rng)
+    d0 = Date(2015, rng.randint(1, 12), rng.randint(1, 28), rng.randint(0, 23), rng.randint(0, 59))   # inside the EOP tables; June 30 (leap second) excluded by day <= 28
+    own = rng.choice(["UTC", "UTC", "UTC", "TAI", "TT", "GPS"])
+    step = q(period / 100, 1.0)
+    order = rng.choice([2, 5, 8, 8, 11])
+    method = rng.choice(["lagrange", "lagrange", "linear"])
+    n = rng.randint(max(order, 2), 24)
+    times = [q(i * step + (0 if i == 0 else rng.uniform(-0.2, 0.2) * step)) for i in range(n)]
+    kep0 = kep.copy()
+    kep0.date = d0
+    pts = []
+    for t in times:
+        o = kep0.propagate(d0 + timedelta(seconds=t)).copy(form="cartesian")
+        o.date = o.date.change_scale(own)
+        pts.append(o)
+    eph = Ephem(pts, method=method, order=order)
+    speed = 1.2 * math.sqrt(MU / (sma * (1 - ecc))) * 1.1
+    queries = [(times[j], "node", j) for j in {0, n - 1, rng.randrange(n), rng.randrange(n)}]
+    queries += [gen_query(rng, times, "interior") + (None,) for _ in range(3)]
+    queries += [(q(times[0] - 10.0), "outside", None), (q(times[-1] + 10.0), "outside", None), (q(times[0] - 40.0), "outside", None), (q(times[-1] + 70.0), "outside", None)]
+    for t, pos, j in queries:
+        dq = (d0 + timedelta(seconds=t)).change_scale(own)
+        k0, ref = error_kind(lambda: eph.interpolate(dq))
+        for sc in ("UTC", "TAI", "TT", "GPS", "UT1", "TDB"):
+            if sc == own:
+                continue
+            exact = sc in ("UTC", "TAI", "TT", "GPS")
+            if not exact and (pos == "outside" or j in (0, n - 1) or min(t - times[0], times[-1] - t) < 1e-3):
+                continue      # a clock reading rounded to the microsecond may fall on the other side of a table end
+            dq2 = dq.change_scale(sc)
+            inp = {"kep": list(map(float, kep)), "epoch": str(d0), "table_scale": own, "times": times, "t": t, "query_scale": sc, "method": method, "order": order}
+            out.count(key=("scale", own, sc, str(d0), t), kind=f"scale-{sc}-{pos}", table=own)
+            k1, r = error_kind(lambda: eph.interpolate(dq2))
+            if k1 != k0:
+                out.fail(f"scale-dependence/{sc}/{pos}", f"the same instant expressed in {sc} is {'refused' if k1 != 'ok' else 'accepted'} while in the table's scale ({own}) it is not",
+                         inp, observed=k1, expected=k0)
+                continue
+            if k0 != "ok":
+                continue
+            a, b = np.asarray(r, dtype=float), np.asarray(ref, dtype=float)
+            if exact and dq2._mjd == dq._mjd:
+                ok = np.array_equal(a, b)
+            else:
+                tol = np.array([speed * 2e-6] * 3 + [speed * 2e-6 * 2e-3] * 3)     # 2 µs of motion
+                ok = bool(np.all(np.abs(a - b) <= tol))
+            if not ok:
+                out.fail(f"scale-dependence/{sc}/{pos}", f"interpolating at the same instant expressed in {sc} instead of {own} gives another state",
+                         inp, observed=a.tolist(), expected=b.tolist())
+            elif not (r.date == dq if exact else abs((r.date - dq).total_seconds()) <= 2e-6):
+                out.fail(f"scale-dependence/{sc}/date", "the interpolated point is not dated at the requested instant", inp, observed=str(r.date), expected=str(dq))
+
+
+def setter_case(out, rng):
+    """interpolate with (method1, order k1); set ephem.order = k2 and/or ephem.method; interpolate in the same interval(s):
+    must equal a fresh Ephem built with the final method / order on the same points; the same on a bare Interp"""
+    import numpy as np
+    from beyond.orbits import Ephem
+    from beyond.utils.interp import Interp
+    from beyond.dates import timedelta
+    d0 = base_date()
+    k1 = rng.choice([2, 2, 3, 4, 8, 8, 12])
+    k2 = rng.choice([k for k in (2, 3, 4, 5, 7, 8, 9, 12) if k != k1])
+    m1 = rng.choice(["lagrange", "lagrange", "lagrange", "linear"])
+    m2 = rng.choice(["lagrange", "lagrange", "linear"]) if rng.random() < 0.4 else m1
+    n = rng.choice([max(k1, k2), max(k1, k2) + rng.randint(0, 20), max(2, min(k1, k2) + rng.randint(0, 3))])
+    times, step, uniform = gen_times(rng, n)
+    coef = [[rng.uniform(-1, 1) * (7e6 if c < 3 else 7e3) for _ in range(8)] for c in range(6)]
+    span = times[-1] - times[0]
+    coords = [[sum(a * ((t - times[0]) / span) ** k for k, a in enumerate(cs)) for cs in coef] for t in times]
+    warm = rng.random() < 0.75
+    visited = [gen_query(rng, times, w) for w in rng.sample(["first", "last", "interior", "interior", "second", "node"], 3)]
+    again = []
+    for t, pos in visited:
+        i = max(0, max(j for j in range(n) if times[j] <= t) if t < times[-1] else n - 2)
+        i = min(i, n - 2)
+        t2 = q(times[i] + rng.uniform(0.05, 0.95) * (times[i + 1] - times[i]))
+        again += [(t, pos), (t2, pos)]
+    again.append(gen_query(rng, times, "interior"))
+    inp = {"times": times, "coef": coef, "method1": m1, "order1": k1, "method2": m2, "order2": k2, "interpolated_before": warm,
+           "visited": [v[0] for v in visited]}
+    # --- Ephem
+    eph = mk_ephem(times, coords, m1, k1)
+    if warm:
+        for t, pos in visited:
+            error_kind(lambda: eph.interpolate(d0 + timedelta(seconds=t)))
+    eph.order = k2
+    if m2 != m1:
+        eph.method = m2
+    fresh = mk_ephem(times, coords, m2, k2)
+    what = ("order" if True else "") + ("+method" if m2 != m1 else "")
+    for t, pos in again:
+        dq = d0 + timedelta(seconds=t)
+        ka, a = error_kind(lambda: eph.interpolate(dq))
+        kb, b = error_kind(lambda: fresh.interpolate(dq))
+        out.count(key=("setter", k1, k2, m1, m2, warm, times[0], t), kind=f"setter-ephem-{'warm' if warm else 'cold'}", change=what)
+        if ka != kb or (ka == "ok" and not np.array_equal(np.asarray(a, dtype=float), np.asarray(b, dtype=float))):
+            out.fail(f"setter-not-honoured/ephem-{what}/{'visited-interval' if warm else 'before-first-interpolation'}",
+                     f"after `ephem.order = {k2}`" + (f", `ephem.method = {m2!r}`" if m2 != m1 else "") + f" (was {m1}/{k1}) the ephemeris does not interpolate like one built with {m2}/{k2}",
+                     dict(inp, t=t), observed=ka if ka != "ok" else np.asarray(a, dtype=float).tolist(), expected=kb if kb != "ok" else np.asarray(b, dtype=float).tolist())
+            break
+    # --- bare Interp, `order` attribute
+    xs = np.array([58849.0 + t / 86400.0 for t in times])
+    ys = np.array(coords)
+    if all(a < b for a, b in zip(xs, xs[1:])):
+        f = Interp(xs, ys, "lagrange", k1)
+        if warm:
+            for t, pos in visited:
+                error_kind(lambda: f(58849.0 + t / 86400.0))
+        f.order = k2
+        g = Interp(xs, ys, "lagrange", k2)
+        for t, pos in again:
+            x = 58849.0 + t / 86400.0
+            ka, a = error_kind(lambda: f(x))
+            kb, b = error_kind(lambda: g(x))
+            out.count(key=("setter-interp", k1, k2, warm, float(xs[0]), x), kind=f"setter-interp-{'warm' if warm else 'cold'}")
+            if ka != kb or (ka == "ok" and not np.array_equal(np.asarray(a), np.asarray(b))):
+                out.fail(f"setter-not-honoured/interp-order/{'visited-interval' if warm else 'before-first-call'}",
+                         f"after `interp.order = {k2}` (was {k1}) the interpolator does not behave like Interp(..., order={k2})",
+                         {"xs": list(map(float, xs)), "ys": ys.tolist(), "order1": k1, "order2": k2, "visited": [58849.0 + v[0] / 86400.0 for v in visited], "x": float(x)},
+                         observed=ka if ka != "ok" else np.asarray(a).tolist(), expected=kb if kb != "ok" else np.asarray(b).tolist())
+                break
 
 
 def stale_case(out, rng):
